@@ -477,8 +477,20 @@ def bound(ctx: Any) -> List[Ob]:
         return [f'SCAN:{t_}' for c in fd.node_calls(node, evl) for t_ in sorted(scan_types(c, lc), key=str)]
 
     lme = lc.params[0]
+
+    def reads_srv(it: ast.AST) -> bool:
+        """The loop runs over the cached SRV records of the instance (a cache reader handed the SRV type)."""
+        for c in ast.walk(it):
+            if isinstance(c, ast.Call) and call_name(c) != SCAN and any(prog.try_fold(lc.module, a_) == (True, 33) for a_ in c.args):
+                return True
+        return False
+
     for srv_cached in (True, False):
-        ocl, undl = traces(ctx, lc, {f'{lme}.server_key': 'host-key', '.get_by_details()': fd.Sym('rec') if srv_cached else None}, eff_l, loop_bound=1, for_iter=lambda n, e: False)
+        # `SRV cached`: a single-record reader returns a record, a loop over an all-records reader runs once
+        ocl, undl = traces(
+            ctx, lc, {f'{lme}.server_key': 'host-key', '.get_by_details()': fd.Sym('rec') if srv_cached else None}, eff_l, loop_bound=1,
+            for_iter=lambda n, e, sc=srv_cached: bool(sc and reads_srv(n.ast.iter)),
+        )
         scans = {tuple(sorted(x for x in strip_ret(t) if isinstance(x, str) and x.startswith('SCAN:'))) for t in ocl}
         obs.append(ob(R, lc, f'host unchanged, SRV {"cached" if srv_cached else "not cached"}', 'both address types of the known host are read from the cache (A and AAAA scanned on every path)', bool(scans) and all(set(sc) >= {'SCAN:1', 'SCAN:28'} for sc in scans), f'scans on the feasible paths: {sorted(scans)}; undecided {undl}'))
     ret = [r for r in walk_local_ordered(lc.node) if isinstance(r, ast.Return)]
